@@ -191,6 +191,10 @@ lz_encode(void *coder_ptr, const lzma_allocator *allocator,
 #ifdef TUKAANI_PROJECT_XZ_VERIF
 /// Verification hook H1 (see lz_encoder_init()): extra initial mf->offset.
 uint32_t lzma_verif_mf_offset_bias = 0;
+
+/// Verification hook H2 (see lz_encoder_prepare()): upper limit for the
+/// extra space reserved in the window buffer; 0 means no limit.
+uint32_t lzma_verif_lz_reserve_cap = 0;
 #endif
 
 
@@ -227,6 +231,14 @@ lz_encoder_prepare(lzma_mf *mf, const lzma_allocator *allocator,
 
 	reserve += (lz_options->before_size + lz_options->match_len_max
 			+ lz_options->after_size) / 2 + (UINT32_C(1) << 19);
+
+#ifdef TUKAANI_PROJECT_XZ_VERIF
+	// Verification hook H2: allow a small window reserve so that
+	// move_window() runs after a few KiB of input.
+	if (lzma_verif_lz_reserve_cap != 0
+			&& reserve > lzma_verif_lz_reserve_cap)
+		reserve = lzma_verif_lz_reserve_cap;
+#endif
 
 	const uint32_t old_size = mf->size;
 	mf->size = mf->keep_size_before + reserve + mf->keep_size_after;
